@@ -63,7 +63,7 @@ Qed.
 
 Lemma dch_hex d : 0 <= d < 16 -> digval 16 (dch d) = Some d.
 Proof.
-  intro H. unfold dch, digval, isdigit. change (16 =? 16) with true.
+  intro H. unfold dch, digval, isdigit. change (16 =? 16) with true. change (16 =? 8) with false. cbn [andb].
   destruct (Z.ltb_spec d 10).
   - replace ((48 <=? 48 + d) && (48 + d <=? 57)) with true
       by (symmetry; apply andb_true_iff; split; apply Z.leb_le; lia).
